@@ -28,6 +28,7 @@ import EasyNet.Drv.JRaw
 import EasyNet.Drv.Iso
 import EasyNet.Drv.TlsEof
 import EasyNet.Drv.GenericFr
+import EasyNet.Drv.Life
 open EasyNet.Drv
 
 /-- one runner per model family; each returns `none` for model names it does not know -/
@@ -52,6 +53,7 @@ def runners : List (String → List String → List String → Option (List Stri
   , runIso
   , runTlsEof
   , runGenericFr
+  , runLife
   ]
 
 def dispatch (model : String) (cfg : List String) (ops : List String) : Option (List String) :=
